@@ -52,6 +52,7 @@ var (
 
 //go:norace
 func resetChans() {
+	resetSelWaiters()
 	for i := 0; i < nvchans; i++ {
 		vchans[vchanUsed[i]] = vchan{}
 	}
@@ -130,6 +131,91 @@ func noteChan() {
 	}
 }
 
+// ---- blocked selects as rendezvous partners ----
+//
+// A select that has to wait registers itself; a later send, receive or select
+// on one of its unbuffered channels completes the exchange on its behalf (as
+// the runtime does with its wait queues). Without this two selects facing each
+// other - one offering a send, one a receive, on the same unbuffered channel -
+// would both wait for a "plain" partner that never comes.
+
+type selWaiter struct {
+	cases   []SelCase
+	fired   int // -1 while waiting, else the case a partner completed
+	got     any
+	ok      bool
+	next    *selWaiter
+	syncIn  byte // partner -> waiter edge
+	syncOut byte // waiter (as of blocking) -> partner edge
+}
+
+var selHead *selWaiter
+
+//go:norace
+func resetSelWaiters() { selHead = nil }
+
+//go:norace
+func (w *selWaiter) register() {
+	w.fired = -1
+	w.next = selHead
+	selHead = w
+}
+
+//go:norace
+func (w *selWaiter) unregister() {
+	for pp := &selHead; *pp != nil; pp = &(*pp).next {
+		if *pp == w {
+			*pp = w.next
+			w.next = nil
+			return
+		}
+	}
+}
+
+//go:norace
+func (w *selWaiter) firedCase() int { return w.fired }
+
+// findSelPartner returns a blocked select (other than not) with an open case of
+// the wanted direction on the unbuffered channel key, and the index of that case.
+//
+//go:norace
+func findSelPartner(key unsafe.Pointer, wantSend bool, not *selWaiter) (*selWaiter, int) {
+	if key == nil {
+		return nil, -1
+	}
+	for w := selHead; w != nil; w = w.next {
+		if w == not || w.fired >= 0 {
+			continue
+		}
+		for i := range w.cases {
+			c := &w.cases[i]
+			if c.key == key && c.send == wantSend && c.cap == 0 {
+				return w, i
+			}
+		}
+	}
+	return nil, -1
+}
+
+//go:norace
+func (w *selWaiter) complete(i int, v any, ok bool) {
+	w.fired, w.got, w.ok = i, v, ok
+}
+
+//go:norace
+func (w *selWaiter) caseVal(i int) any { return w.cases[i].val }
+
+// handTo completes case i of the blocked select w with value v (for a receive
+// case) and wakes it. Both directions of the unbuffered rendezvous are ordered:
+// what the waiter did before it blocked happens before what the caller does
+// next, and what the caller did so far happens before the waiter goes on.
+func handTo(w *selWaiter, i int, v any) {
+	RaceAcquire(unsafe.Pointer(&w.syncOut))
+	w.complete(i, v, true)
+	RaceRelease(unsafe.Pointer(&w.syncIn))
+	Wake(unsafe.Pointer(&selectAddr))
+}
+
 // closedNow reports whether ch is closed. The virtual closed flag only lives for
 // one run, but a channel kept in library state outlives it (a "ready" channel
 // closed in one run and waited on in the next), so the real channel is closed
@@ -181,6 +267,11 @@ func Send[T any](ch chan<- T, v T) {
 	if c.isClosed() {
 		panic("send on closed channel")
 	}
+	if w, i := findSelPartner(key, false, nil); w != nil {
+		// a blocked select is waiting to receive on this channel
+		handTo(w, i, v)
+		return
+	}
 	it := c.push(v)
 	// sender -> receiver edge on an address of this item alone: a release on the
 	// channel's own address would be overwritten by the next pending sender
@@ -211,6 +302,11 @@ func recv[T any](ch <-chan T) (T, bool) {
 	c := vchanOf(key)
 	if cap(ch) > 0 {
 		for len(ch) == 0 && !closedNow(c, ch) {
+			if timerFault() && fireTimerFor(key) {
+				// clock fault: the timer behind this channel fires now, while the
+				// other tasks are in the middle of whatever they are doing
+				continue
+			}
 			Block(key)
 		}
 		v, ok := <-ch // cannot block: data is buffered, or the channel is closed
@@ -230,6 +326,12 @@ func recv[T any](ch <-chan T) (T, bool) {
 			RaceAcquire(key)
 			var zero T
 			return zero, false
+		}
+		if w, i := findSelPartner(key, true, nil); w != nil {
+			// a blocked select is waiting to send on this channel
+			v, _ := w.caseVal(i).(T)
+			handTo(w, i, nil)
+			return v, true
 		}
 		// a receiver is now waiting: a select with a send case on this channel
 		// may proceed
@@ -343,6 +445,8 @@ type Sel struct {
 	real  bool
 	got   reflect.Value
 	ok    bool
+	done  bool // a partner completed the chosen case while this select was blocked
+	gotV  any
 }
 
 func CanRecv[T any](ch <-chan T) SelCase {
@@ -370,7 +474,7 @@ func (c *vchan) waitingRecvs() int { return c.recvs }
 //go:norace
 func (c *vchan) addRecv(d int) { c.recvs += d }
 
-func caseReady(sc *SelCase) bool {
+func caseReady(sc *SelCase, self *selWaiter) bool {
 	if sc.key == nil {
 		return false // nil channel: never ready
 	}
@@ -382,10 +486,19 @@ func caseReady(sc *SelCase) bool {
 		return sc.len() > 0 || sc.shut(c)
 	}
 	if sc.send {
-		// a receiver is waiting that no pending sender has already claimed
-		return c.waitingRecvs() > c.pending() || c.isClosed()
+		// a receiver is waiting that no pending sender has already claimed, or
+		// another blocked select offers to receive
+		if c.waitingRecvs() > c.pending() || c.isClosed() {
+			return true
+		}
+		w, _ := findSelPartner(sc.key, false, self)
+		return w != nil
 	}
-	return c.pending() > 0 || sc.shut(c)
+	if c.pending() > 0 || sc.shut(c) {
+		return true
+	}
+	w, _ := findSelPartner(sc.key, true, self)
+	return w != nil
 }
 
 //go:norace
@@ -427,20 +540,37 @@ func SelectReady(hasDefault bool, cases ...SelCase) *Sel {
 		return s
 	}
 	noteSelect()
+	w := &selWaiter{cases: cases, fired: -1}
+	registered := false
 	for {
+		if registered {
+			if i := w.firedCase(); i >= 0 {
+				// a partner completed one of the cases while this select waited
+				RaceAcquire(unsafe.Pointer(&w.syncIn))
+				w.unregister()
+				s.I, s.done, s.gotV, s.ok = i, true, w.got, w.ok
+				return s
+			}
+		}
 		var ready [16]int
 		n := 0
 		for i := range cases {
-			if n < len(ready) && caseReady(&cases[i]) {
+			if n < len(ready) && caseReady(&cases[i], w) {
 				ready[n] = i
 				n++
 			}
 		}
 		if n > 0 {
+			if registered {
+				w.unregister()
+			}
 			s.I = ready[selDraw(n)]
 			return s
 		}
 		if hasDefault {
+			if registered {
+				w.unregister()
+			}
 			s.I = -1
 			return s
 		}
@@ -448,6 +578,11 @@ func SelectReady(hasDefault bool, cases ...SelCase) *Sel {
 		// expires although other tasks could still run
 		if timerFault() && fireTimerAmong(cases) {
 			continue
+		}
+		if !registered {
+			w.register()
+			registered = true
+			RaceRelease(unsafe.Pointer(&w.syncOut))
 		}
 		Block(unsafe.Pointer(&selectAddr))
 	}
@@ -501,6 +636,10 @@ func SelRecv2[T any](s *Sel, i int, _ <-chan T) (T, bool) {
 		v, _ := s.got.Interface().(T)
 		return v, s.ok
 	}
+	if s.done {
+		v, _ := s.gotV.(T)
+		return v, s.ok
+	}
 	ch, _ := s.cases[i].ch.(<-chan T)
 	return recv(ch)
 }
@@ -513,7 +652,7 @@ func SelRecv[T any](s *Sel, i int, ch <-chan T) T {
 // SelSend performs the send of the chosen case (outside a simulated run the
 // real select has already sent).
 func SelSend[T any](s *Sel, i int, _ chan<- T, _ T) {
-	if s.real {
+	if s.real || s.done {
 		return
 	}
 	ch, _ := s.cases[i].ch.(chan<- T)
